@@ -217,3 +217,9 @@ Definition flop_wiring_ok (C : Circuit) (q : string) : Prop :=
   map_Forall (λ _ i, set_Forall (λ f, f ∈ bb_pins (c_g C) → f ∈ q_pins C q) (n_fi i)) (c_g C).
 Global Instance flop_names_ok_dec C : Decision (flop_names_ok C). Proof. unfold flop_names_ok. apply _. Defined.
 Global Instance flop_wiring_ok_dec C q : Decision (flop_wiring_ok C q). Proof. unfold flop_wiring_ok. apply _. Defined.
+
+(* initial value of flop b: None = free (the step-0 Q node stays an input), Some t = the step-0 Q node gets type t ('0' / '1' / 'x').
+   A Python dict has each key once: iv_nodup. *)
+Definition init_of (iv : init_vals) (b : string) : option gtype :=
+  match iv with IvNone => None | IvAll t => Some t | IvDict l => (λ p, p.2.2) <$> list_find (λ kt, kt.1 = b) l end.
+Definition iv_nodup (iv : init_vals) : Prop := match iv with IvDict l => NoDup l.*1 | _ => True end.
